@@ -39,6 +39,33 @@ func (x *Exec) initState() *State {
 	st := &State{Heap: map[string]*Term{}, HeapTypes: map[string]heapKeyInfo{}, Cells: map[int]*Val{}, CellTypes: map[int]types.Type{},
 		Ghost: map[string]*Val{}, NextRef: Const("ref:base", SInt)}
 	st.Assume(Gt(st.NextRef, Num(0)))
+	// facts of the application wiring: module accounts and their permissions (app/app.go maccPerms)
+	if mp, err := x.P.MaccPerms(); err == nil {
+		var mods []string
+		for m := range mp {
+			mods = append(mods, m)
+		}
+		sort.Strings(mods)
+		for _, m := range mods {
+			mt := strLit(m)
+			st.Assume(UF("moduleExists", []string{SStr}, SBool, mt))
+			has := map[string]bool{}
+			for _, pm := range mp[m] {
+				has[pm] = true
+			}
+			for _, pm := range []string{"minter", "burner", "staking"} {
+				f := UF("hasPerm", []string{SStr, SStr}, SBool, mt, strLit(pm))
+				if has[pm] {
+					st.Assume(f)
+				} else {
+					st.Assume(Not(f))
+				}
+			}
+		}
+		x.note(fmt.Sprintf("module accounts and permissions read from app/app.go maccPerms (%d entries)", len(mods)))
+	} else {
+		x.note("maccPerms could not be read: " + err.Error())
+	}
 	var names []string
 	for n := range x.P.Specs.Ghosts {
 		names = append(names, n)
@@ -76,7 +103,9 @@ func VerifyFunc(p *Program, fc *FuncContract, opts VerifyOpts) (rep *FuncReport)
 	}
 	x := NewExec(p)
 	x.top, x.topKey, x.fc = fn, fc.Key(), fc
-	x.noPanic = fc.NoPanic && !opts.NoPanicOff
+	x.noPanic = (fc.NoPanic || opts.PanicMode) && !opts.NoPanicOff
+	x.panicMode = opts.PanicMode
+	x.panicProps = opts.PanicProps
 	x.overflow = !opts.OverflowOff
 	x.revealed = map[string]bool{}
 	for _, r := range fc.Reveal {
@@ -117,6 +146,11 @@ func VerifyFunc(p *Program, fc *FuncContract, opts VerifyOpts) (rep *FuncReport)
 	env := contractEnv(x, fc, fn, args, st)
 	for _, r := range fc.Requires {
 		st.Assume(x.safeEvalBool(env, r.E, fc.Key()+" requires"))
+	}
+	if x.panicMode {
+		for _, r := range fc.PanicRequires {
+			st.Assume(x.safeEvalBool(env, r.E, fc.Key()+" panic_requires"))
+		}
 	}
 	if fc.Decr != nil {
 		x.topDecr0 = toInt(env.eval(fc.Decr))
@@ -183,7 +217,10 @@ func VerifyFunc(p *Program, fc *FuncContract, opts VerifyOpts) (rep *FuncReport)
 			o.Hyps = append(o.Hyps, hints...)
 			x.applyKnownRegions(o, post)
 		}
-		x.frameObligations(st2, post, fc)
+		if !(x.panicMode && len(fc.Ensures) == 0 && len(fc.Modifies) == 0) {
+			// (a pure no-panic stub makes no claim about what the function changes)
+			x.frameObligations(st2, post, fc)
+		}
 	})
 	if x.aborted != "" {
 		x.obs = append(x.obs, &Obligation{Name: fc.Key() + "/explored", Kind: "tool-limit", Func: fc.Key(), Goal: FalseT, Status: "error", Output: x.aborted})
@@ -207,6 +244,8 @@ func VerifyFunc(p *Program, fc *FuncContract, opts VerifyOpts) (rep *FuncReport)
 type VerifyOpts struct {
 	NoPanicOff  bool
 	OverflowOff bool
+	PanicMode   bool   // C10/C20: generate no-panic obligations for this function; callees must be panic-checked too
+	PanicProps  []string
 }
 
 // frameObligations: ghost variables not named in modifies must be unchanged at exit.
